@@ -70,6 +70,7 @@ type vfServer struct {
 	Statements []string         // every mutating statement received (whitespace-normalised, args inlined), in order
 	FailOn     map[string]error // substring of the statement text -> error returned instead of executing it
 	EmptyOn    map[string]bool  // substring of a reading statement -> answered with an empty result set (zero rows)
+	ExtSources []string         // rows of mysql.replication_sources (external replication); empty => table does not exist
 	// Hook, if set, runs (with mu held) before every statement is answered: lets a test change the server state between
 	// two statements of ONE call into the code under test (e.g. "an operator ran RESET REPLICA ALL in between").
 	Hook func(s *vfServer, q string)
@@ -298,6 +299,12 @@ func (s *vfServer) read(q string) (*vfRows, error) {
 		return r, nil
 	case has("FROM information_schema.EVENTS"):
 		return vfNone("EVENT_SCHEMA", "EVENT_NAME", "DEFINER"), nil
+	case has("FROM mysql.replication_sources") && len(s.ExtSources) > 0:
+		r := vfNone("SourceHost", "Priority")
+		for i, h := range s.ExtSources {
+			r.data = append(r.data, []driver.Value{h, int64(100 - i)})
+		}
+		return r, nil
 	case has("FROM mysql.replication_settings"), has("FROM mysql.replication_sources"):
 		return nil, &mysqldrv.MySQLError{Number: 1146, Message: "Table doesn't exist (vfmysql: external replication is not modelled)"}
 	case strings.HasPrefix(q, "SET SESSION "):
